@@ -6,7 +6,9 @@
  *           selection may change while objects are alive (op h), two objects coexist (op o)
  * After every step: lookup of every key of the universe, length, table size, and the
  * iteration by every mechanism (mode B prints one list when all mechanisms agree and
- * ITERDIFF/... otherwise). */
+ * ITERDIFF/... otherwise), including both definitions of json_object_object_foreach
+ * (GNU form here, portable form in drv_lh_ansi.c); delete-current-while-iterating exists
+ * for both as well (ops x and y). */
 #include "common.h"
 #include <unistd.h>
 #include "json.h"
@@ -14,6 +16,12 @@
 #include "json_visit.h"
 #include "linkhash.h"
 const char *DOMAIN = "lh";
+// WITH: drv_lh_ansi.c
+/* loops compiled as a strict ISO C application: the portable definition of
+ * json_object_object_foreach (this file sees the GNU statement-expression one) */
+int lh_ansi_foreach(struct json_object *obj, void (*item)(void *, const char *, struct json_object *), void *arg, int max);
+int lh_ansi_foreach_del(struct json_object *obj, int (*visit)(void *, const char *, struct json_object *), void *arg, int max);
+int lh_ansi_foreachC(struct json_object *obj, void (*item)(void *, const char *, struct json_object *), void *arg, int max);
 
 #define MAXK 4096
 static unsigned long hashtab[MAXK];
@@ -209,6 +217,13 @@ static void item_kv(struct sb *b, const char *key, struct json_object *val)
 	else snprintf(tmp, sizeof tmp, "%d:n", i);
 	sb_item(b, tmp);
 }
+static void ansi_item(void *arg, const char *key, struct json_object *val) { item_kv((struct sb *)arg, key, val); }
+static int ansi_visit(void *arg, const char *key, struct json_object *val)
+{
+	int kk = key_index(key);
+	item_kv((struct sb *)arg, key, val);
+	return kk >= 0 && inset[kk];
+}
 struct vis_arg { struct sb *b; int n; };
 static int visit_cb(json_object *jso, int flags, json_object *parent, const char *key, size_t *idx, void *arg)
 {
@@ -256,7 +271,7 @@ static void ser_items(struct json_object *obj, struct sb *b)
 
 static void obs_b(struct json_object *obj, const char *ret)
 {
-	struct sb g = {0}, m[6] = {{0}};
+	struct sb g = {0}, m[8] = {{0}};
 	struct lh_table *t = json_object_get_object(obj);
 	struct lh_entry *e;
 	struct json_object_iterator it, end;
@@ -304,16 +319,18 @@ static void obs_b(struct json_object *obj, const char *ret)
 		if (++guard > 100000) { sb_item(&m[5], "LOOP"); break; }
 		item_kv(&m[5], itc.key, itc.val);
 	}
-	for (i = 1; i < 6; i++)
+	if (lh_ansi_foreach(obj, ansi_item, &m[6], 100000) < 0) sb_item(&m[6], "LOOP");
+	if (lh_ansi_foreachC(obj, ansi_item, &m[7], 100000) < 0) sb_item(&m[7], "LOOP");
+	for (i = 1; i < 8; i++)
 		if (strcmp(sb_str(&m[0]), sb_str(&m[i])) != 0) same = 0;
 	printf("%s %d %d %s ", ret, json_object_object_length(obj), t->size, sb_str(&g));
 	if (same) printf("%s", sb_str(&m[0]));
 	else {
 		printf("ITERDIFF");
-		for (i = 0; i < 6; i++) printf("/%s", sb_str(&m[i]));
+		for (i = 0; i < 8; i++) printf("/%s", sb_str(&m[i]));
 	}
 	sb_free(&g);
-	for (i = 0; i < 6; i++) sb_free(&m[i]);
+	for (i = 0; i < 8; i++) sb_free(&m[i]);
 }
 
 /* json_object_new_object under the CURRENT global selection, then the case's initial size */
@@ -420,6 +437,14 @@ static void mode_b(char *rest)
 					if (kk >= 0 && inset[kk]) json_object_object_del(obj, key);
 				}
 			}
+			obs_b(obj, sb_str(&vis));
+			sb_free(&vis);
+			continue; }
+		case 'y': {
+			/* the same, the loop being the portable (strict ISO C) definition of the macro */
+			struct sb vis = {0};
+			parse_set(tok + 1);
+			if (lh_ansi_foreach_del(obj, ansi_visit, &vis, 100000) < 0) sb_item(&vis, "LOOP");
 			obs_b(obj, sb_str(&vis));
 			sb_free(&vis);
 			continue; }
